@@ -275,6 +275,20 @@ func (r *Report) Fail(key, kind string, detail map[string]any, rerun func() bool
 			}
 		}
 		if n != 5 {
+			// The case failed inside the (parallel) exploration but not when run alone. Single-case runners are pure
+			// functions of their descriptor, so either the harness is nondeterministic or the library's answer depends
+			// on what other goroutines are doing. Decide by running the same descriptor on several goroutines at once:
+			// a failure there, with every solo run passing, is a verdict ("not a function of its inputs").
+			if n == 1 {
+				if f, total := ConcurrentReruns(rerun); f > 0 {
+					detail["needs_concurrency"] = true
+					detail["concurrency"] = fmt.Sprintf("the case passes when it runs alone (4 of 4 re-runs) and fails in %d of %d re-runs when the same call is in progress on other goroutines: the result is not a function of the inputs", f, total)
+					r.mu.Lock()
+					r.violations[key] = Violation{Property: r.ID, Key: key, Kind: kind, Detail: detail, Reruns: f}
+					r.mu.Unlock()
+					return
+				}
+			}
 			r.mu.Lock()
 			delete(r.violations, key)
 			r.flaky = append(r.flaky, fmt.Sprintf("%s: failed %d of 5 runs", key, n))
@@ -285,6 +299,27 @@ func (r *Report) Fail(key, kind string, detail map[string]any, rerun func() bool
 	r.mu.Lock()
 	r.violations[key] = Violation{Property: r.ID, Key: key, Kind: kind, Detail: detail, Reruns: n}
 	r.mu.Unlock()
+}
+
+// ConcurrentReruns runs a single-case re-run function on 8 goroutines, 40 times each, and returns how many of the
+// runs failed.
+func ConcurrentReruns(rerun func() bool) (failed, total int) {
+	var wg sync.WaitGroup
+	var f atomic.Int64
+	const G, N = 8, 40
+	for g := 0; g < G; g++ {
+		wg.Add(1)
+		go func() {
+			defer wg.Done()
+			for i := 0; i < N; i++ {
+				if rerun() {
+					f.Add(1)
+				}
+			}
+		}()
+	}
+	wg.Wait()
+	return int(f.Load()), G * N
 }
 
 func (r *Report) partial() Partial {
